@@ -512,7 +512,7 @@ func (ex *Exec) chanRecv(ch *ChanObj, block bool) (Value, bool) {
 		panic(ex.unsupported("receive on nil channel blocks forever"))
 	}
 	ex.preemptPoint()
-	avail := func() bool { return len(ch.Buf) > 0 || ch.Closed }
+	avail := func() bool { return len(ch.Buf) > 0 || ch.Closed || ex.timerReady(ch) }
 	if !avail() && ex.cur == nil {
 		ex.runGoroutines()
 	}
@@ -521,6 +521,9 @@ func (ex *Exec) chanRecv(ch *ChanObj, block bool) (Value, bool) {
 			return nil, false
 		}
 		ex.block(avail, "channel receive")
+	}
+	if len(ch.Buf) == 0 && !ch.Closed && ex.timerReady(ch) {
+		ex.timerFire(ch)
 	}
 	if len(ch.Buf) > 0 {
 		v := ch.Buf[0]
@@ -577,7 +580,7 @@ func (ex *Exec) selectOp(fr *frame, x *ssa.Select) Value {
 				if ch.Closed || len(ch.Buf) < ch.Cap || ch.Cap == 0 && len(ch.Buf) == 0 {
 					r = append(r, i)
 				}
-			} else if len(ch.Buf) > 0 || ch.Closed {
+			} else if len(ch.Buf) > 0 || ch.Closed || ex.timerReady(ch) {
 				r = append(r, i)
 			}
 		}
@@ -606,6 +609,20 @@ func (ex *Exec) selectOp(fr *frame, x *ssa.Select) Value {
 		if s.Dir == types.RecvOnly {
 			res[ri] = ex.zero(s.Chan.Type().Underlying().(*types.Chan).Elem())
 			ri++
+		}
+	}
+	if len(r) > 0 && !x.Blocking {
+		// a non-blocking select whose only ready cases are timers that may (not must) have fired:
+		// the default branch is possible too
+		soft := true
+		for _, i := range r {
+			ch := states[i].ch
+			if x.States[i].Dir == types.SendOnly || len(ch.Buf) > 0 || ch.Closed {
+				soft = false
+			}
+		}
+		if soft && ex.chooseSched(2) == 0 {
+			r = nil
 		}
 	}
 	if len(r) == 0 {
